@@ -348,7 +348,12 @@ func txLabel(c *caseCtx, p *pass) string {
 			cause = "none"
 		}
 	}
-	return fmt.Sprintf("tx=%s cause=%s inside=%s", c.txKind, cause, inside(p.tc.top))
+	in := inside(p.tc.top)
+	if p.tc.claimsTotal > 0 && !strings.Contains(in, "lockup-claim") {
+		// the claim sits in a nested frame that failed itself, so it never merged into the top frame's effects
+		in += "+lockup-claim(nested)"
+	}
+	return fmt.Sprintf("tx=%s cause=%s inside=%s", c.txKind, cause, in)
 }
 
 // plainDigest is the account part of the world digest (no EVM attached).
